@@ -2,6 +2,12 @@
 and the signature function that labels a failing case for known_findings.jsonl."""
 
 PROPS = {
+    'C14': {
+        'families': [('c14', 40, 400)],
+        'rule': 'generated valid archives (CARv1, CARv2 with data padding, index after the payload) x Next/SkipNext choice strings (all-skip plus random strings, two calls past the end) x {bytes.Reader-like source with ReadByte, file-like source with Read+Seek only, plain io.Reader, a real *os.File}; every BlockMetadata field, every block, the EOF position and the exact number of bytes read from the wrapped source are compared; distinct = distinct script text',
+        'trusted': [],
+        'assumptions': ['digests within go-cid\'s 32 MiB stream cap (SkipNext parses the CID with CidFromReader)'],
+    },
     'C01': {
         'families': [('c01', 25, 250)],
         'rule': 'generated (roots, block list, write options) written by every writer kind {blockstore.ReadWrite, storage.NewReadableWritable, storage.NewWritable on a WriterAt, storage stream CARv1, deferred writer for path and for stream, root-module WriteHeader+LdWrite}, each finished file then read by {BlockReader seekable/plain, v2 Reader DataReader payload, internal CARv1 reader, root CarReader with/without empty-roots error, root LoadCar, blockstore.OpenReadOnly keys+Get, storage.OpenReadable Get}; file bytes predicted byte-for-byte by the model and by the layout spec; distinct = distinct script text',
@@ -78,6 +84,8 @@ def signature(pid, script, I, S):
         if fam == 'read':
             return pid + '/reader-' + toks.get('rd', '?') + '-does-not-return-what-was-written'
         return pid + '/' + fam + '-result-differs-from-reference-map'
+    if pid == 'C14':
+        return 'C14/' + toks.get('kind', '?') + '-v' + toks.get('ver', '?') + '-walk-differs'
     if pid == 'C03':
         return 'C03/' + toks.get('kind', '?') + '-' + ('v' + toks.get('ver', '?')) + '-index-differs-from-reference-scan'
     return f'{pid}/{fam}'
